@@ -126,6 +126,7 @@ class TypeState:
         self.contexts = 0
         self.stack = []
         self.consts_stack = []
+        self.alias_stack = []    # per analysed function: {param index: entity key} for parameters that ARE an entity's side
         self.is_clock = lambda q, e: False    # set by the rule: is expression e the book clock (or a parameter always given it)
         self.time_writes = set()              # (fn path, block, stmt) of every end_time / arr_time write visited
 
@@ -196,10 +197,11 @@ class TypeState:
         return None
 
     # ------------------------------------------------------------------ main analysis
-    def analyse(self, fn, entry, mode="api", consts=()):
+    def analyse(self, fn, entry, mode="api", consts=(), aliases=None):
         """entry: dict key -> frozenset(tuples) for parameter-rooted entities.
         returns dict(exit=dict key->frozenset, ret=expr)"""
-        ck = (fn.path, mode, tuple(sorted((repr(k), tuple(sorted(v, key=repr))) for k, v in entry.items())), tuple(consts))
+        ck = (fn.path, mode, tuple(sorted((repr(k), tuple(sorted(v, key=repr))) for k, v in entry.items())), tuple(consts),
+              tuple(sorted((j, repr(k)) for j, k in (aliases or {}).items())))
         if ck in self.memo:
             return self.memo[ck]
         if fn.path in self.stack:
@@ -207,6 +209,7 @@ class TypeState:
             return {"exit": dict(entry), "ret": ("unk", "rec")}
         self.stack.append(fn.path)
         self.consts_stack.append(dict(consts))
+        self.alias_stack.append(dict(aliases or {}))
         self.contexts += 1
         q = self.m.q(fn)
         body = q.body
@@ -271,6 +274,7 @@ class TypeState:
         res = {"exit": {k: v for k, v in OUT_exit.items()}, "ret": q.ret()}
         self.stack.pop()
         self.consts_stack.pop()
+        self.alias_stack.pop()
         self.memo[ck] = res
         return res
 
@@ -318,6 +322,13 @@ class TypeState:
             if a[0] == "variant":
                 subj = a[1]
                 names = a[2]
+                if all(n in SIDES for n in names) and subj[0] == "param" and self.alias_stack and subj[1] in self.alias_stack[-1]:
+                    k = self.canon_key(st, self.alias_stack[-1][subj[1]])
+                    cur = self.get(q, st, k, mode)
+                    nv = frozenset(t for t in cur if t[2] in names)
+                    if not nv:
+                        return None
+                    st[k] = nv
                 if all(n in SIDES for n in names) and subj[0] == "field":
                     k = None
                     if subj[2] == "side":
@@ -448,7 +459,12 @@ class TypeState:
             k = ("field", a[1], "order", "")
             cur = self.get(q, st, k, mode)
             side = self.key_side(w.val)
-            if side is None:
+            if isinstance(side, tuple) and side[0] == "alias":
+                # the key's side component is this very order's side (passed down as a parameter): consistent by construction
+                side = "own" if same(side[1], k) else None
+            if side == "own":
+                pass
+            elif side is None:
                 self.viol("key-side", "unknown|" + q.fn.short(), where, "cannot determine the side component of the key written: " + w.text())
             else:
                 bad = [t for t in cur if t[2] != side]
@@ -462,6 +478,8 @@ class TypeState:
         """side component of a key value expression (tuple literal or a key-builder call)"""
         if v[0] == "agg" and v[1] == "tuple" and v[3]:
             n = variant_name(v[3][0])
+            if n is None and v[3][0][0] == "param" and self.alias_stack and v[3][0][1] in self.alias_stack[-1]:
+                return ("alias", self.alias_stack[-1][v[3][0][1]])
             return n if n in SIDES else None
         if v[0] == "call":
             f = self.m.prog.fn_by_short(v[1])
@@ -632,7 +650,20 @@ class TypeState:
             return
         self.calls.append((q.fn, tgt, {render(ck): frozenset(t[2] for t in v) for ck, v in entry.items()}, where))
         consts = tuple(sorted((j + 1, variant_name(a)) for j, a in enumerate(c.args) if a[0] == "agg" and variant_name(a) in STATUSES))
-        res = self.analyse(tgt, entry, mode, consts)
+        # a parameter that receives `<entity>.side` (or the side component of its key) IS that entity's side in the callee
+        aliases = {}
+        for j, a in enumerate(c.args):
+            ent = None
+            if a[0] == "field" and a[2] == "side":
+                ent = a[1]
+            elif a[0] == "field" and a[2] == "0" and a[1][0] == "field" and a[1][2] == "key":
+                ent = ("field", a[1][1], "order", "")
+            if ent is None:
+                continue
+            for (k, ck) in touched:
+                if same(k, ent):
+                    aliases[j + 1] = ck
+        res = self.analyse(tgt, entry, mode, consts, aliases)
         ret_expr = res["ret"]
         call_res = c.result
         for (k, ck) in touched:
